@@ -66,7 +66,8 @@ theorem flat_empty (song : Song) (d : DataInfo) : Flat song d {} [] := by intro 
 
 /-- same subroutine map and lists: same invariant -/
 theorem Flat.congr {song : Song} {d : DataInfo} {c c' : Conv} {hs : List Nat} (h : Flat song d c hs) (h1 : c'.subMap = c.subMap)
-    (h2 : c'.subList = c.subList) (h3 : ∀ p ∈ c.macroMap, p ∈ c'.macroMap) : Flat song d c' hs := by
+    (h2 : c'.subList = c.subList) (h3 : ∀ p ∈ c.macroMap, p ∈ c'.macroMap)
+    (h4 : c.usedData.length ≤ c'.usedData.length) : Flat song d c' hs := by
   intro p hp hn
   rw [h1] at hp
   obtain ⟨evs, he, hf⟩ := h p hp hn
@@ -74,7 +75,7 @@ theorem Flat.congr {song : Song} {d : DataInfo} {c c' : Conv} {hs : List Nat} (h
   have hle : (ctxOf d c).le (ctxOf d c') := ⟨fun q hq => by
     have hq' : q ∈ c.subMap := hq
     show q ∈ c'.subMap
-    rw [h1]; exact hq', h3, rfl⟩
+    rw [h1]; exact hq', h3, rfl, h4⟩
   exact FlatSub.mono hle hf
 
 theorem subKey_inj {t t' : Int} {a b a' b' : Bool} (h : subKey t a b = subKey t' a' b') : t = t' ∧ a = a' ∧ b = b' := by
@@ -100,10 +101,10 @@ theorem hook_succ_flat {song : Song} {d : DataInfo} (hpc : PlatformClean d) (n :
   | drum c' id w' pre ev _ _ hg _ _ _ _ => exact ih.sub c _ _ _ c' id (w.out :: L) P hinv hf hg
   | jump c' id w' pre _ hg _ _ => exact ih.sub c _ _ _ c' id (w.out :: L) P hinv hf hg
   | data key ty arg w' pre _ _ _ _ =>
-    obtain ⟨h1, _, h3, _⟩ := getEnvelope_spec c key hinv.maps
+    obtain ⟨h1, _, h3, _, h5, _⟩ := getEnvelope_spec c key hinv.maps
     exact hf.congr h3 h1 (fun p hp => by
       have : (getEnvelope c key).1.macroMap = c.macroMap := by unfold getEnvelope; split <;> rfl
-      rw [this]; exact hp)
+      rw [this]; exact hp) h5
   | mtab c' id w' pre _ _ hg _ _ => exact ih.mac c _ c' id (w.out :: L) P hinv hf hg
 
 theorem run_succ_flat {song : Song} {d : DataInfo} (hpc : PlatformClean d) (n : Nat) (ih : WInv2 song d n) :
@@ -204,7 +205,7 @@ theorem sub_succ_flat {song : Song} {d : DataInfo} (hpc : PlatformClean d) (hne 
             ⟨fun q hq => by
               have hq' : q ∈ c.subMap := hq
               show q ∈ c.subMap ++ [(subKey t a b, c.subList.length)]
-              exact List.mem_append_left _ hq', fun q hq => hq, rfl⟩
+              exact List.mem_append_left _ hq', fun q hq => hq, rfl, Nat.le_refl _⟩
           exact FlatSub.mono hle hfl
         have hf2 := ih.run 20000000 evs c1 _ initState c2 w L _ h1 hf1 hr
         obtain ⟨hi2, hm2⟩ := (writerInv hpc n).run 20000000 evs c1 _ initState c2 w L _ h1 hr
@@ -290,10 +291,10 @@ theorem mac_succ_flat {song : Song} {d : DataInfo} (hpc : PlatformClean d) (n : 
         obtain ⟨c2, w⟩ := r
         simp only [Except.ok.injEq, Prod.mk.injEq] at h
         obtain ⟨rfl, rfl⟩ := h
-        have hf1 : Flat song d c1 P.hs := hf.congr (by rw [hc1]) (by rw [hc1]) (fun p hp => by rw [hc1]; simp [hp])
+        have hf1 : Flat song d c1 P.hs := hf.congr (by rw [hc1]) (by rw [hc1]) (fun p hp => by rw [hc1]; simp [hp]) (by rw [hc1]; exact Nat.le_refl _)
         have hf2 := ih.run 20000000 evs c1 _ initState c2 w L { P with xm := c.macroList.length :: P.xm, hm := c.macroList.length :: P.hm }
           h1 hf1 hr
-        exact hf2.congr rfl rfl (fun p hp => hp)
+        exact hf2.congr rfl rfl (fun p hp => hp) (Nat.le_refl _)
 
 /-- the flat invariant is carried by all four functions, for every fuel -/
 theorem writerInv2 {song : Song} {d : DataInfo} (hpc : PlatformClean d) (hne : SongNoEnd song) : ∀ n, WInv2 song d n := by
